@@ -91,6 +91,7 @@ func (vm *VM) compile(ctx context.Context, text *text, s string, args ...interfa
 	p.text = true
 	for p.More() {
 		p.Vars = p.Vars[:0]
+		p.doubleQuotes = vm.doubleQuotes // A directive of this text may have set the flag.
 		t, err := p.Term()
 		if err != nil {
 			return err
